@@ -39,7 +39,11 @@ type Engine struct {
 	OracleOnly bool
 	Oracles    []Oracle
 	CurFile    string // the running episode is written here (post-mortem of a process crash)
-	seen       run.Seen
+	// Wild (C07): attribute values from the whole int64 range; an operation for which the model
+	// predicts a panic is executed all the same — if the real code panics the process dies and
+	// the episode left in CurFile is the failing input
+	Wild bool
+	seen run.Seen
 }
 
 func New(d *drv.Driver, t *testing.T) *Engine {
@@ -350,6 +354,14 @@ func (e *Engine) episode(ops []string, res *report.Result) *report.Failure {
 		mObs, mGuide, _ := strings.Cut(model, " | ")
 		if strings.Contains(mObs, "crash=") {
 			res.Count("model-predicts-crash")
+			if e.Wild {
+				// the real code is expected to die here; if it survives, the model is wrong
+				p.curOp.Store(int32(i))
+				exec()
+				synctest.Wait()
+				result = fail(i, "disagreement", "", mObs, "(survived)", "the model predicts a panic that the implementation does not show", "e2:crash-not-shown")
+				break
+			}
 			result = &report.Failure{Kind: "crash-predicted", Ops: append([]string(nil), ops[:i+1]...), At: i, Model: mObs}
 			break
 		}
